@@ -741,6 +741,12 @@ func (x *Exec) block(st *State, b *ssa.BasicBlock, pred *ssa.BasicBlock, k Cont)
 				st.assume(g)
 			}
 		}
+		// the cells as they are when an iteration starts: atiter(x) in loop contracts
+		for key, v := range st.Heap {
+			if !strings.ContainsAny(key, ".#:@") {
+				st.NamedV["atiter:"+key] = v
+			}
+		}
 		st.InLoop = append(st.InLoop, b.Index)
 		fr.LoopMark[b.Index] = len(st.Events)
 		// summary marker for events of completed iterations
